@@ -63,7 +63,11 @@ CELER_FUNCTION float GenerateCanonical32<float>::operator()(Generator& rng)
                   "Generator must return 32-bit sample");
 
     constexpr float norm = 2.32830643654e-10f;  // 1 / 2**32
-    return norm * rng();
+    // Converting the largest 128 integers to float rounds up to 2**32, which
+    // would give exactly one: clamp to keep the result inside [0, 1)
+    constexpr float max_result = 0.99999994f;  // 1 - 2**-24
+    float const result = norm * rng();
+    return result < max_result ? result : max_result;
 }
 
 //---------------------------------------------------------------------------//
